@@ -78,7 +78,8 @@ Proof.
       assert (Hplain : Inv_t (f1, []) /\ call_ok md bs n (canon c x) f1 g).
       { split; [|exact Hcall]. destruct Hinv as (c' & x' & -> & Hx' & Hcn'). exists c', x'. cbn [fst snd]. auto. }
       destruct g as [w s| |k|w|s l ps ok]; try (destruct k); cbn [untear filter]; try exact Hplain.
-      destruct (te_torn te && last_is_meta ps && Nat.eqb (length ps) (e_k (te_e te) - 4)); [|exact Hplain].
+      destruct (te_torn te && last_is_meta ps && Nat.eqb (length ps) (e_k (te_e te) - 4));
+        [|destruct (te_torn te && ok && Nat.eqb (S (length ps)) (e_k (te_e te) - 4)); exact Hplain].
       destruct (Hl s l ps ok Hx Hfix Hcn eq_refl) as (-> & d & ->).
       rewrite (upd_plate_canon md bs n Hbs Hn). cbn [fst snd]. split.
       * exists c, (XIncomplete (clear_meta d)). cbn [fst snd]. repeat split; auto. right. split; [reflexivity|]. eexists; reflexivity.
